@@ -1041,6 +1041,10 @@ func (node *Node) checkTxDelays(ctx context.Context) {
 				continue
 			}
 
+			if txState.State.Safe {
+				continue // already reported, by the block that confirmed it in the meantime
+			}
+
 			txState.State.Safe = true
 
 			if err := internalStorage.SaveTxState(ctx, node.store, txState); err != nil {
